@@ -32,7 +32,7 @@ ASSUMPTIONS = [
     'private dispatcher state is recorded in witnesses as a diagnosis only',
 ]
 REQUIRED = {'cascading_watcher_programs': 50, 'faulted_runs': 2000, 'faults_fired': 1500, 'probe_deliveries': 5000, 'in_batch_runs': 500,
-            'fault_watcher': 300, 'fault_updatekey': 300, 'fault_body': 300, 'failed_constructors': 10}
+            'fault_watcher': 300, 'fault_updatekey': 300, 'fault_body': 300, 'failed_constructors': 10, 'class_level_cases': 5}
 
 _st = {}
 NAMES = ['a', 'b', 'c', 's']      # s is declared per_instance=False: its Parameter object is shared with the class
@@ -359,8 +359,66 @@ def first_diff(a, b):
     return None
 
 
+def class_level_case(idx, rng, P, rep):
+    """The same clause at class level: after a (failing or not) update through a subclass that inherits an Event parameter,
+    the classes dispatch like freshly declared ones - in particular the Event still resets itself everywhere."""
+    param = _st['param']
+
+    def build():
+        A = type(f'CA{idx}', (param.Parameterized,), dict(a=param.Parameter(default=0), n=param.Number(default=1, bounds=(0, 10)), e=param.Event()))
+        S = type(f'CS{idx}', (A,), {})
+        return A, S
+
+    def history(A, S, fault):
+        kw = dict(e=True)
+        if fault == 'bad-value':
+            kw = dict(e=True, n=99) if rng_flags[0] else dict(n=99, e=True)
+        elif fault == 'unknown':
+            kw = dict(e=True, nosuch=1)
+        try:
+            S.param.update(**kw)
+        except (ValueError, TypeError):
+            pass
+
+    def probe(A, S):
+        out = []
+        for K in (A, S):
+            got = []
+            w = K.param.watch(lambda ev: got.append((ev.name, ev.new, ev.type)), ['e', 'a'], onlychanged=False)
+            K.e = True
+            out.append(('event-set', K is A, list(got), K.e))
+            K.a = ('v', 1)
+            out.append(('set', K is A, list(got)))
+            K.param.trigger('e')
+            out.append(('trigger', K is A, list(got), K.e))
+            K.param.unwatch(w)
+            o = K()
+            got2 = []
+            o.param.watch(lambda ev: got2.append((ev.name, ev.new, ev.type)), 'e', onlychanged=False)
+            o.e = True
+            out.append(('instance-event', K is A, got2, o.e))
+        return out
+
+    fault = rng.choice([None, 'bad-value', 'unknown'])
+    rng_flags = [rng.random() < 0.5]
+    A, S = build()
+    history(A, S, fault)
+    got = probe(A, S)
+    A2, S2 = build()
+    want = probe(A2, S2)
+    rep.count('class_level_cases')
+    if got != want:
+        d = next((g, w) for g, w in zip(got, want) if g != w)
+        rep.violation('C05/class-level/probe-differs-from-fresh-classes' + (f'/{fault}' if fault else ''),
+                      f'after SubClass.param.update(e=True{", failing with " + fault if fault else ""}) the probe step {d[0][0]!r} gave {d[0]!r}, '
+                      f'freshly declared classes give {d[1]!r}', case=dict(fault=fault))
+    rep.case(('class-level', fault, rng_flags[0]), nontrivial=True)
+
+
 def run_case(idx, rng, P, rep):
     param = _st['param']
+    if rng.random() < 0.08:
+        return class_level_case(idx, rng, P, rep)
     cls = make_class(param, idx)
     nw = rng.randint(1, 4)
     wspecs = []
